@@ -98,8 +98,8 @@ pub fn shard_run(prop: &str, tier: &str, seed: u64, replay: Option<&serde_json::
     let mut out = ShardOut::default();
     let mut cov = Cov::default();
     let scns = scenarios(tier, seed);
-    let cap = if thorough { 3000 } else { 60 };
-    let n_probe = if thorough { 150 } else { 15 };
+    let cap = if thorough { 2000 } else { 60 };
+    let n_probe = if thorough { 120 } else { 15 };
     let (replay_scn, replay_choices): (Option<String>, Option<Vec<usize>>) = match replay {
         Some(r) => (
             r["replay"]["scenario"]["name"].as_str().map(|s| s.to_string()),
